@@ -107,6 +107,8 @@ def judge(out, beh):
         return v
     mo.pop('linv', None)
     mo.pop('riter', None)
+    for k in ('itf', 'itt', 'ulw'):
+        mo.pop(k, None)
     if out['kind'].startswith('demo'):
         # len(DemoStorage) is len(changes) by definition (ZDemo models it so); not a statement about the merged view
         mo.pop('len', None)
